@@ -387,6 +387,12 @@ func cmdCheck(args []string) int {
 		for _, o := range append(append([]*Obligation{}, failing...), unprovedSeen...) {
 			un = append(un, o.Name)
 		}
+		// entries of the existing list that this run did not generate at all (other tier: slow cases) are kept
+		for name := range unprovedOK {
+			if _, gen := generated[name]; !gen {
+				un = append(un, name)
+			}
+		}
 		sort.Strings(un)
 		if len(un) > 0 {
 			os.WriteFile(filepath.Join(vd, "expected", id+".unproved"), []byte("# obligations generated on the unchanged tree that do not discharge; NOT counted as proved\n"+strings.Join(un, "\n")+"\n"), 0o644)
